@@ -534,3 +534,129 @@ def component_truthiness(check, rule: str, modules: set[str] | None = None) -> N
     if len(fx) != 3:
         raise AnalysisError(f"positive fixture for the component-truthiness rule matches {len(fx)} sites, expected 3")
     check.ok(rule, "fixture/component-truthiness", "positive fixture matched 3 truth tests on sized components (and not the identity test / plain list)")
+
+
+UNUSED_BY_DESIGN = {
+    ("WeightedAverage.defuzzify", "minimum"): "weighted defuzzifiers do not use the range (documented: irrelevant)",
+    ("WeightedAverage.defuzzify", "maximum"): "weighted defuzzifiers do not use the range (documented: irrelevant)",
+    ("WeightedSum.defuzzify", "minimum"): "weighted defuzzifiers do not use the range (documented: irrelevant)",
+    ("WeightedSum.defuzzify", "maximum"): "weighted defuzzifiers do not use the range (documented: irrelevant)",
+    ("Representation.repr_float", "level"): "signature imposed by reprlib",
+    ("Linear.membership", "x"): "a Linear term is a function of the engine's input values, not of x",
+}
+
+
+def unused_parameters(check, rule: str, classes: set[str], functions: set[str] = frozenset()) -> None:
+    """A parameter that a function never reads cannot have the effect its callers and its documentation expect (a wrapper that
+    forgets to pass an option on silently behaves as if the option had its default). Functions that read `locals()` / `vars()` use all
+    of their parameters; bodies that only raise / pass (abstract or refusing defaults) are skipped."""
+    p = check.program
+    n_fun = 0
+    for f in p.functions.values():
+        owner = f.cls.name if f.cls is not None else None
+        if "/examples/" in f.file or not ((owner in classes) or f.qualname in functions):
+            continue
+        body = [s_ for s_ in f.node.body if not (isinstance(s_, ast.Expr) and isinstance(s_.value, ast.Constant))]
+        if f.is_abstract or all(isinstance(s_, (ast.Pass, ast.Raise)) for s_ in body):
+            continue
+        if any(isinstance(x, ast.Call) and isinstance(x.func, ast.Name) and x.func.id in ("locals", "vars") and not x.args for x in ast.walk(f.node)):
+            continue
+        n_fun += 1
+        reads = {x.id for x in ast.walk(f.node) if isinstance(x, ast.Name) and isinstance(x.ctx, ast.Load)}
+        for q in f.params:
+            if q.name in ("self", "cls") or q.kind in ("vararg", "kwarg") or q.name.startswith("_") or q.name in reads:
+                continue
+            if (f.qualname, q.name) in UNUSED_BY_DESIGN:
+                continue
+            check.analysed(f)
+            check.violation(rule, f"{f.qualname}/unused:{q.name}", f"`{f.qualname}` never reads its parameter `{q.name}`: whatever the caller passes, the function behaves as "
+                            "if the option had its default (e.g. a convenience wrapper that does not pass the option on)", loc(f))
+    check.ok(rule, "parameters/all-used", f"every parameter of the {n_fun} functions in scope is read (documented exceptions: {len(UNUSED_BY_DESIGN)})")
+
+
+def _result_kinds(fn_node: ast.AST) -> set[str]:
+    """Kinds of the values a function / lambda can return: 'int' for integer and boolean literals, 'other' for everything else."""
+    outs: list[ast.AST] = []
+    if isinstance(fn_node, ast.Lambda):
+        outs.append(fn_node.body)
+    else:
+        outs += [x.value for x in ast.walk(fn_node) if isinstance(x, ast.Return) and x.value is not None]
+    kinds: set[str] = set()
+
+    def rec(e: ast.AST) -> None:
+        if isinstance(e, ast.IfExp):
+            rec(e.body)
+            rec(e.orelse)
+        elif isinstance(e, ast.Constant) and isinstance(e.value, (int, bool)) and not isinstance(e.value, float):
+            kinds.add("int")
+        else:
+            kinds.add("other")
+
+    for o in outs:
+        rec(o)
+    return kinds
+
+
+def scan_numpy_pitfalls(tree: ast.Module, is_numpy: Callable[[ast.AST], bool]) -> list[tuple[int, str, str]]:
+    """(line, construct, what) for two numpy interfaces whose result silently depends on the *first element* or on the *number of
+    dimensions* of the argument: np.vectorize without otypes over a function that can return both integer literals and other values
+    (the dtype of the whole result is taken from the first output: later fractional values are truncated), and np.piecewise with a
+    bare condition array instead of a list of conditions (for two or more dimensions its rows are taken as separate conditions)."""
+    out: list[tuple[int, str, str]] = []
+    defs = {f.name: f for f in ast.walk(tree) if isinstance(f, ast.FunctionDef)}
+
+    def is_vectorize(e: ast.AST) -> bool:
+        return isinstance(e, ast.Attribute) and e.attr == "vectorize" and is_numpy(e.value)
+
+    def report_vec(line: int, name: str, target: ast.AST | None) -> None:
+        if target is None:
+            return
+        k = _result_kinds(target)
+        if "int" in k and "other" in k:
+            out.append((line, name, "np.vectorize without otypes: the function returns an integer literal on one path and another value on "
+                        "another; numpy takes the dtype of the whole result from the first element, so when that is the integer every later "
+                        "fractional value is truncated (the result then depends on the order of the rows)"))
+
+    for f in defs.values():
+        for d in f.decorator_list:
+            if is_vectorize(d):
+                report_vec(f.lineno, f.name, f)
+            elif isinstance(d, ast.Call) and is_vectorize(d.func) and not any(k.arg == "otypes" for k in d.keywords):
+                report_vec(f.lineno, f.name, f)
+    for x in ast.walk(tree):
+        if isinstance(x, ast.Call) and is_vectorize(x.func) and not any(k.arg == "otypes" for k in x.keywords) and x.args:
+            a = x.args[0]
+            target = a if isinstance(a, ast.Lambda) else (defs.get(a.id) if isinstance(a, ast.Name) else None)
+            report_vec(x.lineno, a.id if isinstance(a, ast.Name) else "<lambda>", target)
+        if isinstance(x, ast.Call) and isinstance(x.func, ast.Attribute) and x.func.attr == "piecewise" and is_numpy(x.func.value) and len(x.args) >= 2 \
+                and not isinstance(x.args[1], (ast.List, ast.Tuple)):
+            out.append((x.lineno, "piecewise", "np.piecewise is given a bare condition array instead of a list of conditions: for an argument of two "
+                        "or more dimensions numpy takes each row of the array as a separate condition, so matrices are mis-evaluated (or rejected) "
+                        "while scalars and vectors work"))
+    return out
+
+
+def numpy_pitfalls(check, rule: str, modules: set[str] | None = None) -> bool:
+    """Returns True when nothing was found."""
+    import os
+
+    from ..report import VERIF
+
+    p = check.program
+    hits = []
+    for mod in p.modules.values():
+        if "/examples/" in mod.relpath or (modules is not None and mod.relpath not in modules):
+            continue
+        np_names = {k for k, v in mod.imports.items() if v == "numpy"}
+        for line, name, what in scan_numpy_pitfalls(mod.tree, lambda e: isinstance(e, ast.Name) and e.id in np_names):
+            hits.append((mod.relpath, line, name, what))
+    for rel, line, name, what in hits:
+        check.violation(rule, f"{rel}/{name}", what, f"{rel}:{line}")
+    if not hits:
+        check.ok(rule, "package/numpy-pitfalls", "no np.vectorize with mixed integer / non-integer results and no np.piecewise with a bare condition array")
+    with open(os.path.join(VERIF, "selftest", "fixtures", "numpy_pitfalls.py"), encoding="utf-8") as fh:
+        fx = scan_numpy_pitfalls(ast.parse(fh.read()), lambda e: isinstance(e, ast.Name) and e.id == "np")
+    if len(fx) != 3:
+        raise AnalysisError(f"positive fixture for the numpy-pitfall rule matches {len(fx)} sites, expected 3")
+    check.ok(rule, "fixture/numpy-pitfalls", "positive fixture matched 3 sites (and not the float-only / otypes / list-of-conditions variants)")
+    return not hits
